@@ -113,6 +113,13 @@ def run(rep, wd, tier, seed):
     from .isocheck import _pool
     outs = _pool(_drive, [(seed, p, ncipher) for p in core.split(list(range(n)), core.NCPU)])
     traces = [t for o in outs for t in o]
+    # four threads at once, none of them the thread that imported the library
+    from . import isocheck
+    touts = isocheck.mark_threaded(isocheck.threaded('harness.c13', '_drive', [(seed, list(range(50000 + 12 * k, 50000 + 12 * k + 12)), 2) for k in range(8)], procs=2))
+    for o in touts:
+        for t in o:
+            t['tid'] = len(traces)
+            traces.append(t)
     # one long trace of consecutive format-4 blocks without a supplied fill: 2000 fills must not repeat
     ev = []
     import random as _random
